@@ -64,11 +64,16 @@ def run(ctx):
     for fi in p.lookup_dispatch("wavefunctions.wave_function", "calc_overlap"):
         batching.check_batched(ctx, fi, "wavefunctions.wave_function")
     restricted_default(ctx, "overlap")
+    from .c11 import parity_rule
+    parity_rule(ctx)
     s = Sib(ctx)
+    s.holomorphy(("_calc_overlap", "_calc_green", "calc_overlap_ratio", "calc_green", "calc_full_green"))
+    s.restricted_consumes_trial_data("overlap")
     s.rhf_restricted_vs_unrestricted("overlap")
     s.multislater_restricted_vs_unrestricted()
     s.multislater_reference_pairing()
     s.noci_trans_rdm1_symmetry()
+    s.noci_rdm1_weights()
     s.ci_flavours_overlap()
     s.cisd_overlap_ratio()
     s.ucisd_overlap_ratio()
